@@ -15,8 +15,8 @@ from . import tokcommon as T
 
 ID = "C20"
 LEVEL = "exploration"
-TIERS = {"quick": {"shards": 16, "budget_s": 25, "pair_len": 5, "random_pairs": 2500, "split_cases": 60, "validator_cases": 60},
-         "thorough": {"shards": 16, "budget_s": 420, "pair_len": 7, "random_pairs": 150000, "split_cases": 4000, "validator_cases": 4000}}
+TIERS = {"quick": {"shards": 16, "budget_s": 120, "pair_len": 5, "random_pairs": 2500, "split_cases": 60, "validator_cases": 60},
+         "thorough": {"shards": 16, "budget_s": 900, "pair_len": 7, "random_pairs": 150000, "split_cases": 4000, "validator_cases": 4000}}
 RULE = ("(a) one StreamTokenizer object processes stream 1 (run to completion in list/callback/generator mode, generator "
         "consumed for j tokens and left suspended / closed / garbage-collected, generator created and never started) and then "
         "stream 2; the tokens of the second use must equal those of a fresh tokenizer with the same parameters.  Bounded-"
